@@ -105,6 +105,11 @@ impl<'a> PrettyPrinter<'a> {
                 .last()
                 .is_some_and(|child| child.kind() == SyntaxKind::Comma);
 
+        let fold_style = self.get_fold_style(ctx, array);
+        // A row that is never folded gets a comma after every item, the last one included.
+        let never_folds = fold_style == FoldStyle::Never
+            || (array.to_untyped().children()).any(|it| it.kind() == SyntaxKind::LineComment);
+
         // In a row of 2D math args, a backslash at the end of an item must not touch
         // the comma that follows: `\,` is an escape.
         let needs_blank_before_comma = |node: ArrayItem<'a>| {
@@ -117,12 +122,12 @@ impl<'a> PrettyPrinter<'a> {
                 && (array.to_untyped().children())
                     .skip_while(|it| !std::ptr::eq(*it, node.to_untyped()))
                     .skip(1)
-                    .find(|it| it.kind() != SyntaxKind::Space)
-                    .is_some_and(|it| it.kind() == SyntaxKind::Comma)
+                    .find(|it| !matches!(it.kind(), SyntaxKind::Space | SyntaxKind::BlockComment | SyntaxKind::LineComment))
+                    .map_or(never_folds, |it| it.kind() == SyntaxKind::Comma)
         };
 
         ListStylist::new(self)
-            .with_fold_style(self.get_fold_style(ctx, array))
+            .with_fold_style(fold_style)
             .process_list(ctx, array.to_untyped(), |ctx, node| {
                 let item = self.convert_array_item(ctx, node);
                 if needs_blank_before_comma(node) {
